@@ -84,6 +84,13 @@ def dec2dms(x):
     d = int(math.floor(x))
     m = int(math.floor((x - d) * 60))
     s = float(((x - d) * 60 - m) * 60)
+    # carry, so that the seconds/minutes fields never print as 60
+    if round(s, 2) >= 60:
+        s = 0.0
+        m += 1
+    if m >= 60:
+        m -= 60
+        d += 1
     return '{0}{1:02d}:{2:02d}:{3:05.2f}'.format(sign, d, m, s)
 
 
@@ -112,6 +119,15 @@ def dec2hms(x):
     x = (x - h) * 60
     m = int(x)
     s = (x - m) * 60
+    # carry, so that the seconds/minutes/hours fields never print as 60/60/24
+    if round(s, 2) >= 60:
+        s = 0.0
+        m += 1
+    if m >= 60:
+        m -= 60
+        h += 1
+    if h >= 24:
+        h -= 24
     return '{0:02d}:{1:02d}:{2:05.2f}'.format(h, m, s)
 
 
